@@ -60,7 +60,16 @@ def _trim_slice(prog: Program, fn: FuncInfo) -> Tuple[int, int]:
         raise AnalysisError("trim_response of %s is not a single slice (%s)" % (fn.cls.name, fn.loc()))
     sl = rets[0].value.slice
     param = fn.params[-1]
-    if not (isinstance(rets[0].value.value, ast.Name) and rets[0].value.value.id == param):
+    base = rets[0].value.value
+    if isinstance(base, ast.Call) and isinstance(base.func, ast.Attribute) and isinstance(base.func.value, ast.Name) and base.func.value.id == param \
+            and base.func.attr in ("strip", "lstrip", "rstrip", "replace", "removeprefix", "removesuffix", "translate", "split", "partition", "rpartition"):
+        from . import StructuralViolation
+        raise StructuralViolation(
+            ("C02", "C12", "C14"), "trim:%s" % fn.cls.name, fn.loc(rets[0]),
+            "trim_response cuts header and checksum off by constant amounts: the payload handed to the sensors is the register block the validator accepted",
+            "%s.trim_response slices %s, whose length depends on the received bytes (%s() removes by content, e.g. a bus address or payload byte that happens to equal a header byte): "
+            "a conforming answer is then cut at the wrong place, so the request does not succeed with the payload that was sent" % (fn.cls.name, norm(base)[:60], base.func.attr))
+    if not (isinstance(base, ast.Name) and base.id == param):
         raise AnalysisError("trim_response of %s does not slice its argument" % fn.cls.name)
     try:
         lo = prog.consteval(sl.lower, fn.module) if sl.lower is not None else 0
